@@ -87,9 +87,26 @@ class Lib:
 
     def elementwise1(self, ex, st, a, f, elem):
         aa = a.t.arr(a.z)
-        return ex.new_seq(st, elem, ex.seq_len(a), lambda j: f(aa[j]), a.t.kind, "ew")
+        probe = f(aa[z3.Int("memo_probe")])
+        key = ("ew1", a.z.get_id(), probe.get_id(), elem.key())
+        if key in st.memo and not ex.binder_vars:
+            return st.memo[key][0]
+        r = ex.new_seq(st, elem, ex.seq_len(a), lambda j: f(aa[j]), a.t.kind, "ew")
+        if not ex.binder_vars:
+            st.memo[key] = (r, probe)     # the probe term is kept alive so that its id stays valid
+        return r
 
     def elementwise2(self, ex, st, op, a, b, node):
+        key = ("ew2", type(op).__name__, a.z.get_id() if a.z is not None else id(a),
+               b.z.get_id() if b.z is not None else id(b))
+        if key in st.memo and not ex.binder_vars:
+            return st.memo[key]
+        r = self._elementwise2(ex, st, op, a, b, node)
+        if not ex.binder_vars:
+            st.memo[key] = r
+        return r
+
+    def _elementwise2(self, ex, st, op, a, b, node):
         ex.used_lib.add("numpy element-wise arithmetic/comparison on equal-length arrays (scalars broadcast)")
         if isinstance(a.t, TSeq) and isinstance(b.t, TSeq):
             ex.oblige(st, "safety.broadcast", ex.seq_len(a) == ex.seq_len(b), "safety", node,
@@ -380,6 +397,10 @@ class Lib:
             key = (tc, attr)
             if key not in METHODS and tc.startswith("abs:"):
                 key = ("abs", attr)
+            if tc.startswith("abs:"):
+                lc = ex.registry.get("lib:%s.%s" % (tc[4:], attr))
+                if lc is not None:
+                    return self.call_contract(ex, st, lc, node, self_sv=base, self_node=fv.py[3])
             if key in METHODS:
                 impl, stmt = METHODS[key]
                 if stmt:
@@ -435,13 +456,15 @@ class Lib:
         finally:
             st.env = saved
 
-    def bind_args(self, ex, st, callee, node, self_sv=None):
+    def bind_args(self, ex, st, callee, node, self_sv=None, self_node=None):
         pnames = list(callee.params)
         bound = {}
         argnodes = {}
         pos = 0
         if self_sv is not None and pnames and pnames[0] == "self":
             bound["self"] = self_sv
+            if self_node is not None:
+                argnodes["self"] = self_node
             pos = 1
         for a in node.args:
             if pos >= len(pnames):
@@ -469,9 +492,9 @@ class Lib:
             bound[pn] = ex.coerce_decl(st, bound[pn], parse_type(callee.params[pn]))
         return bound, argnodes
 
-    def call_contract(self, ex, st, callee, node, self_sv=None):
+    def call_contract(self, ex, st, callee, node, self_sv=None, self_node=None):
         ex.used_contracts.add(callee.target)
-        bound, argnodes = self.bind_args(ex, st, callee, node, self_sv)
+        bound, argnodes = self.bind_args(ex, st, callee, node, self_sv, self_node)
         short = callee.target.split(".")[-1]
         site = "L%d" % getattr(node, "lineno", 0)
         # callee ghosts: fresh UFs for this call site, axioms instantiated with the actual arguments
@@ -517,6 +540,8 @@ class Lib:
                 an = argnodes.get(m)
                 if isinstance(an, ast.Name) and an.id in st.env:
                     st.env[an.id] = nv
+                elif an is not None and ast.unparse(an) in st.env:
+                    st.env[ast.unparse(an)] = nv
                 elif an is not None:
                     raise self.E.Unsupported("modified argument %s is not a plain name" % m)
             res = SV(NONE)
